@@ -60,6 +60,12 @@ CHECKS = {
   text='Thousands of generated programs (copies whose source is redefined afterwards, loop targets shadowing outer variables, constants folded under nested/sequential/run-time-only contexts and rounding modes, dead stores with impure right-hand sides, list mutation through aliases and through callees, helper calls with and without their own context, early returns, statically-true branches) are decorated by the real @fp.fpy and run on 6 inputs each under several caller contexts; then simplify (all switches on plus 4 sampled switch combinations), each pass alone, and a random order of the three passes are applied and the transformed program is run on the same deep-copied inputs. Any difference in the structural result (sign of zero, NaN, infinities, bools, lists, tuples) or an exception of the transformed program or of the transformation itself is a violation; a hanging transformation is counted (watchdog) and makes the run inconclusive only through the early-stop counters.',
   ref='DESIGN.md 1.5, 2/C07',
   note='Trusted: the original program\'s own result (the interpreter is checked separately by C04/C01/C02). Inputs on which the original raises are skipped and counted. The run is inconclusive if fewer than 30% of the transformed variants differ textually from the original.'),
+ 'C08': dict(
+  technique='differential runtime monitor at Function.__call__: generated loop-heavy source programs run before and after unroll_for / unroll_while / split / elim_iter / fuse on inputs of every list length',
+  category='exploration',
+  text='Generated programs whose loop bodies reassign outer variables, mutate the list they iterate, return early, nest loops, iterate over slices / comprehensions / range with step / zip / enumerate, run under narrow active contexts (3-bit float, fixed point with quantum 4) and use variable names equal to the temporaries the strategies generate (t, n, i, j, m, _src, _i, t2..t12, i3.., ...) are transformed by unroll_for (every loop index and None, times 1..4, PEEL and STRICT), split (factor 1..5 and a variable factor, PEEL and STRICT), unroll_while (times 1..3), elim_iter (both switches), fuse, and the documented compositions (elim_iter then unroll_for, fuse then split); original and transformed programs are run on 10 inputs each with list lengths 0..10, 12, 13, 17 and compared structurally. For STRICT an AssertionError / ValueError on a non-divisible length is the documented outcome.',
+  ref='DESIGN.md 1.5, 2/C08',
+  note='Trusted: the original program\'s own result. Known finding F27 (elim_iter when the loop body writes the iterated list) is reported as KNOWN-FINDING; every other mechanism fails the check.'),
 }
 
 NOT_YET = {}
